@@ -2,6 +2,7 @@ SPECIFICATION Spec
 CONSTANT Letters <- ACGT
 CONSTANT L = 2
 CONSTANT MaxAlt = 2
+CONSTANT Hints <- FullHint
 CONSTANT Refs <- AllSeqs
 INVARIANT TypeOK
 INVARIANT RoundTrip
@@ -11,5 +12,6 @@ INVARIANT SnvColsArePolymorphic
 INVARIANT FirstAppearanceNumbering
 INVARIANT StepwiseMatchesDeclarative
 INVARIANT EncodingInjective
+INVARIANT CoveringHintRoundTrips
 CONSTRAINT Dump
 CHECK_DEADLOCK FALSE
